@@ -19,6 +19,21 @@ class VClock:
     def sleep(self, s):
         self.ms += int(round(s * 1000))
 
+    # the other clocks of the time module read the same virtual time
+    def monotonic(self):
+        return self.ms / 1000.0
+
+    perf_counter = monotonic
+
+    def time_ns(self):
+        return self.ms * 1_000_000
+
+    monotonic_ns = perf_counter_ns = time_ns
+
+    def __getattr__(self, name):
+        import time as real_time
+        return getattr(real_time, name)          # strftime, gmtime, struct_time ...: the real ones
+
 
 Hang = C.Hang
 
